@@ -144,3 +144,21 @@ func ZZ_C19_Login(plen, slen int) {
 func zzParseIP(s string) net.IP        { return nil }
 func zzIPIsLoopback(ip net.IP) bool    { return zzLoopback }
 func zzAgeIdentity() (*age.X25519Identity, error) { return nil, nil }
+
+// lower-level cuts, consistent with zzSessionGet: the request carries a
+// cookie named "session" in cookie states 1..3; only state 2 decodes.
+func zzCookieOf(r *http.Request, name string) (*http.Cookie, error) {
+	// (the cookie name is not compared: under the engine session.DefaultCookie
+	// is an uninitialised external global)
+	if zzCookie == 0 {
+		return nil, http.ErrNoCookie
+	}
+	return &http.Cookie{Name: name, Value: "v"}, nil
+}
+
+func zzSessionDecode(value string, v any, keys ...any) error {
+	if zzCookie == 2 {
+		return nil
+	}
+	return errors.New("cookie does not decrypt under this process's key")
+}
